@@ -7,6 +7,7 @@ import (
 
 	"github.com/basecomplextech/baselibrary/async"
 	"github.com/basecomplextech/baselibrary/status"
+	"github.com/basecomplextech/baselibrary/verifsim/simnet"
 	"github.com/basecomplextech/baselibrary/verifsim/simrt"
 	"github.com/basecomplextech/spec/mpx"
 )
@@ -133,6 +134,11 @@ type flowRun struct {
 	// unknown handler invocations (no matching channel)
 	strayHandlers    int
 	samples          []string
+	post             func(net *simnet.Net, eps []*endpoint) // after the channels are done, before teardown
+	extra            func(net *simnet.Net, eps []*endpoint) // after the endpoints exist, before traffic
+	tap              func(conn, dir int, data []byte)
+	probes           int
+	leaked           []string
 	errorsAtTeardown int
 	panicsAtTeardown int
 	tornDown         bool
@@ -257,6 +263,8 @@ func (r *flowRun) classify(cs *chanState, dir int, data []byte) string {
 
 // ---------------------------------------------------------------- execution
 
+const probeChan = 0xFFFF
+
 type opener func(ctx async.Context) (mpx.Channel, status.Status)
 
 // runChannelClient is the client side of one channel.
@@ -274,6 +282,7 @@ func (r *flowRun) runChannelClient(cs *chanState, open opener) {
 	}
 	cs.opened = true
 	isX := cp.enderIsClient()
+	chCtx, chConn := ch.Context(), ch.Conn()
 
 	if cp.OpenClose {
 		// first and only operation: SendAndClose
@@ -346,6 +355,9 @@ func (r *flowRun) runChannelClient(cs *chanState, open opener) {
 		r.recvLoop(cs, 1, ch, r.bg, -1, 0, false)
 	case EndClientFree:
 		cs.endAction = "client Free"
+	}
+	if r.plan.Faulty && chConn.Closed().IsSet() && !ctxDoneSoon(chCtx) {
+		simrt.Fail("C09-context-not-cancelled", "channel %d (client side): its connection is closed but the channel context is not cancelled", cs.idx)
 	}
 	simrt.Logf("ch%d client Free", cs.idx)
 	ch.Free()
@@ -421,6 +433,13 @@ func (r *flowRun) handler(ctx mpx.Context, ch mpx.Channel) (ret status.Status) {
 		return status.OK
 	}
 	h, ok := parseHeader(first)
+	if ok && h.nonce == r.plan.Nonce && h.ch == probeChan {
+		// recovery probe: echo and leave
+		r.probes++
+		st := ch.SendAndClose(r.bg, first)
+		simrt.Logf("probe handler echo -> %s", stName(st))
+		return status.OK
+	}
 	if !ok || h.nonce != r.plan.Nonce || h.ch >= len(r.chans) || h.dir != 0 {
 		r.strayHandlers++
 		simrt.Fail("C03-corrupt", "handler received an opening payload (%d bytes) that matches no channel of this run: %x", len(first), first[:min(len(first), 24)])
@@ -435,6 +454,13 @@ func (r *flowRun) handler(ctx mpx.Context, ch mpx.Channel) (ret status.Status) {
 	simrt.Logf("ch%d handler start", cs.idx)
 	r.checkRecv(cs, 0, first)
 	defer func() { cs.srvDone = true }()
+	if r.plan.Faulty {
+		defer func() {
+			if ctx.Conn().Disconnected().IsSet() && !ctxDoneSoon(ctx) {
+				simrt.Fail("C09-context-not-cancelled", "channel %d (handler): its connection is closed but the handler's context is not cancelled", cs.idx)
+			}
+		}()
+	}
 
 	hctx := async.Context(r.bg)
 	if cp.SrvChanCtx {
@@ -557,4 +583,12 @@ func (r *flowRun) checkComplete(res *simrt.Result) (out []simrt.Violation) {
 		}
 	}
 	return out
+}
+
+// ctxDoneSoon reports whether the context is cancelled within one simulated second.
+func ctxDoneSoon(ctx async.Context) bool {
+	if ctx.Done() {
+		return true
+	}
+	return simrt.Select(0, ctx.Wait(), time.After(time.Second)) == 0
 }
